@@ -307,6 +307,21 @@ struct Dumper {
     void calleeInfo(std::ostringstream &o, const FunctionDecl *FD) {
         if (!FD) return;
         o << ",\"f\":\"" << jesc(qname(FD)) << "\",\"fd\":" << declOf(FD);
+        // parameters through which the callee may write: T& / T&& (non-const) and T* (non-const pointee)
+        std::string mr;
+        for (unsigned i = 0; i < FD->getNumParams(); ++i) {
+            QualType t = FD->getParamDecl(i)->getType();
+            bool mut = false;
+            if (t->isReferenceType()) mut = !t.getNonReferenceType().isConstQualified();
+            else if (t->isPointerType()) mut = !t->getPointeeType().isConstQualified();
+            if (mut) {
+                if (!mr.empty()) mr += ",";
+                mr += std::to_string(i);
+            }
+        }
+        if (!mr.empty()) o << ",\"mr\":[" << mr << "]";
+        if (auto *MD = dyn_cast<CXXMethodDecl>(FD))
+            if (!MD->isStatic() && !isa<CXXConstructorDecl>(MD) && MD->isConst()) o << ",\"cm\":1";
     }
 
     void emitExpr(std::ostringstream &o, const Expr *E) {
